@@ -26,7 +26,7 @@ class CsrDecWorld(World):
     stub_components = ("leaf CSR buses (stub runs)", "mock registers (flat runs)",
                        "CSR initiator (seeded agent)")
     fault_kinds = ("byzantine_cycle", "both_strobes", "unassigned_address", "window_edge_address",
-                   "abort", "gap")
+                   "abort", "gap", "rejected_re_add")
     assumptions = (
         "Amaranth's Python RTL simulator executes the elaborated netlist faithfully",
         "idle subordinates drive zero read data (as the property assumes of well-behaved buses)",
@@ -61,7 +61,8 @@ class CsrDecWorld(World):
                                  "name": None if rng.chance(0.4) else f"w{depth}_{i}",
                                  "addr": ((rng.below(1 << aw) >> saw) << saw) if rng.chance(0.3)
                                  else None,
-                                 "align_to": rng.range(0, 3) if rng.chance(0.1) else None})
+                                 "align_to": rng.range(0, 3) if rng.chance(0.1) else None,
+                                 "readd": int(rng.chance(0.1))})
         return node
 
     def gen_config(self, rng, prop):
@@ -138,6 +139,14 @@ class CsrDecWorld(World):
                 continue
             mods.extend(sub_mods)
             leaves.extend(sub_leaves)
+            if sc.get("readd"):
+                # fault: the caller adds the same bus again; the call is refused and the caller
+                # carries on (nothing may change)
+                try:
+                    dec.add(bus, name=f"again{len(mods)}")
+                    raise Violation("C06", "duplicate-subordinate-accepted", 0, "")
+                except ValueError:
+                    counter.append("readd")
         return dec.bus
 
     @staticmethod
@@ -158,7 +167,9 @@ class CsrDecWorld(World):
     def run_stub(self, config, ops, stats, hist):
         dw = config["dw"]
         mods, leaves = [], []
-        root = self._build(config["tree"], dw, mods, leaves, [0])
+        counter = [0]
+        root = self._build(config["tree"], dw, mods, leaves, counter)
+        stats.fault("rejected_re_add", counter.count("readd"))
         aw = config["tree"]["aw"]
         sim = hw.build_sim(hw.make_top(*mods))
         lw = list(self._leaf_windows(root.memory_map, 0, [l["map"] for l in leaves]))
@@ -279,7 +290,9 @@ class CsrDecWorld(World):
         from amaranth_soc.memory import MemoryMap
         dw = config["dw"]
         mods, leaves = [], []
-        root = self._build(config["tree"], dw, mods, leaves, [0])
+        counter = [0]
+        root = self._build(config["tree"], dw, mods, leaves, counter)
+        stats.fault("rejected_re_add", counter.count("readd"))
         aw = config["tree"]["aw"]
         infos = list(root.memory_map.all_resources())
         tree_regs = {}
